@@ -13,7 +13,7 @@ mode-forbidden control messages end in a fatal alert and a closed connection.
 from . import _conn
 from ._conn import op_json, op_unjson
 
-TRANSLATORS = []
+TRANSLATORS = ["conn"]
 
 MANIFEST = {
     "text": "Proof: Tls.Conn (statement-order Lean model of readAsync/_getMsg dispatch, send_keyupdate_request, "
@@ -51,14 +51,17 @@ def gen_cfg(rng, flavour):
                    hb=rng.random() < 0.85,
                    hb_cb=(rng.random() < 0.8, rng.random() < 0.8),
                    close_socket=(rng.random() < 0.7, rng.random() < 0.7),
-                   record_size=rng.choice([None, None, 300]))
+                   record_size=rng.choice([None, None, 300, 3, 5, 64]), rsl=rng.choice([None, None, None, 64, 200]))
     else:
         ver = rng.choice([(3, 3), (3, 3), (3, 2), (3, 1), (3, 0)])
         cfg = dict(ver=ver, client_cert=False, tickets=0, hb=rng.random() < 0.9,
                    hb_cb=(rng.random() < 0.8, rng.random() < 0.8),
                    close_socket=(rng.random() < 0.7, rng.random() < 0.7),
                    cipher=rng.choice([None, "aes128", "aes256gcm"] if ver == (3, 3) else ["aes128", "3des", "aes256"]),
-                   record_size=rng.choice([None, None, 300]))
+                   record_size=rng.choice([None, None, 300, 4, 64]), rsl=rng.choice([None, None, None, 70]) if ver >= (3, 1) else None)
+    # heartbeat messages are not reassembled by the receiver: no heartbeat where they would not fit one record
+    if (cfg["record_size"] or 16384) < 200 or cfg.get("rsl"):
+        cfg["hb"] = False
     return cfg
 
 
@@ -107,15 +110,21 @@ def gen_honest(rng, cfg, n, allow_close=True):
         elif x < 0.84:
             ops.append(("s" if rng.random() < 0.85 else w, "pha"))
         elif x < 0.96:
-            ops.append((w, "hb", rb(rng, rng.choice([0, 1, 4, 18, 60])), rng.choice([16, 16, 16, 20, 100, 0, 3, 15])))
-        elif rng.random() < 0.5:
-            ops.append((w, "write", rb(rng, rng.choice([301, 650, 1000]))))
+            big = cfg.get("record_size") is None and not cfg.get("rsl") and rng.random() < 0.04
+            # at most one record: type(1) + length(2) + payload + padding <= 2^14
+            ops.append((w, "hb", rb(rng, 16384 - 3 - 16 if big else rng.choice([0, 1, 4, 18, 60])),
+                        16 if big else rng.choice([16, 16, 16, 20, 100, 0, 3, 15])))
+        elif x < 0.98:
+            tiny = (cfg.get("record_size") or 16384) < 64          # a min=0 read hands out one record: keep draining short
+            ops.append((w, "write", rb(rng, 23 if tiny else rng.choice([301, 650, 1000, 16385 if rng.random() < 0.1 else 17]))))
+        else:
+            ops.append((w, "makefile"))
     if allow_close:
         ops.append((rng.choice("cs"), "close"))
     return ops
 
 
-BAD_MSGS_13 = [("ku", 2), ("ku", 255), ("hsm", 24), ("hsm", 4), ("creq", 900, False), ("cert", 0, 1), ("cert", 901, 1),
+BAD_MSGS_13 = [("kuco", 0), ("kuco", 1), ("ku", 2), ("ku", 255), ("hsm", 24), ("hsm", 4), ("creq", 900, False), ("cert", 0, 1), ("cert", 901, 1),
                ("cv",), ("fin",), ("hso", 1), ("hso", 0), ("hso", 14), ("hso", 8), ("ccs",), ("empty",), ("unk",),
                ("hb", 1, b"zz", 16), ("hb", 2, b"unsolicited", 16), ("hb", 7, b"q", 16), ("hbbad",), ("nst",),
                ("alert", 1, 90), ("alert", 2, 40), ("alert", 1, 0), ("alert", 2, 0), ("alert", 1, 100)]
@@ -245,7 +254,7 @@ def run_one(ctx, lc, cfg, ops, honest, kind, drain=True):
     if drain:
         # let both ends consume everything in flight (a min=0 read handles one message per call)
         quiet = 0
-        while quiet < 4 and len(all_ops) < len(ops) + 400:
+        while quiet < 4 and len(all_ops) < len(ops) + 1200:
             w = "cs"[len(all_ops) % 2]
             op = (w, "read", None, 0)
             line, res = cn.run_op(op)
@@ -299,6 +308,8 @@ def fatal_cases(ctx, lc):
     cases.append(("keyupdate-invalid-value", base13, [], "s", ("ku", 2), None, "fatal"))
     cases.append(("keyupdate-invalid-value", base13, [("c", "write", b"abc")], "c", ("ku", 255), None, "fatal"))
     cases.append(("keyupdate-malformed", base13, [], "c", ("hsm", 24), None, "fatal"))
+    cases.append(("keyupdate-not-at-record-end", base13, [], "s", ("kuco", 0), None, "fatal"))
+    cases.append(("keyupdate-not-at-record-end", base13, [("c", "write", b"abc")], "c", ("kuco", 1), None, "fatal"))
     cases.append(("heartbeat-not-negotiated", dict(base13, hb=False), [], "s", ("hb", 1, b"hello", 16), None, "fatal"))
     cases.append(("heartbeat-not-negotiated", dict(ver=(3, 3), client_cert=False, hb=False), [], "c", ("hb", 1, b"hello", 16), None, "fatal"))
     cases.append(("heartbeat-mode-forbidden", base13, [], "s", ("hb", 1, b"hello", 16), "c_no_recv", "fatal"))
@@ -391,6 +402,82 @@ def fatal_cases(ctx, lc):
                 ctx.disagree("conn-fatal-case", dict(rep, at=i), out[i], impl[i])
 
 
+def fragment_cases(ctx, lc):
+    """handshake messages of a faulty / foreign peer cut into pieces and interleaved with other records:
+    verdict of the defragmenter model (Tls.Conn.reasm) against the live receiver"""
+    from harness import lab
+    from tlslite import messages as M
+    from tlslite.constants import ContentType
+    cases = [
+        ("nst-two-pieces", ["p:nst:0:2", "p:nst:1:2"]),
+        ("nst-three-pieces", ["p:nst:0:3", "p:nst:1:3", "p:nst:2:3"]),
+        ("nst-data-between-pieces", ["p:nst:0:2", "w:app", "p:nst:1:2"]),
+        ("nst-heartbeat-between-pieces", ["p:nst:0:2", "w:hb", "p:nst:1:2"]),
+        ("nst-alert-between-pieces", ["p:nst:0:2", "w:alert"]),
+        ("two-tickets-then-data", ["w:nst", "p:nst:0:2", "p:nst:1:2", "w:app"]),
+        ("data-then-pieces", ["w:app", "p:nst:0:2", "p:nst:1:2"]),
+    ]
+    for label, frags in cases:
+        cn = _conn.Conn(ver=(3, 4), client_cert=False, tickets=0)
+        if not cn.ok:
+            continue
+        nst = bytes(M.NewSessionTicket().create(3600, 7, bytearray(b"\x01"), bytearray(b"forged-ticket" * 3), []).write())
+        for f in frags:
+            t = f.split(":")
+            if t[0] == "w":
+                msg = {"nst": lambda: M.Message(ContentType.handshake, bytearray(nst)),
+                       "app": lambda: M.ApplicationData().create(bytearray(b"x")),
+                       "hb": lambda: M.Heartbeat().create(1, bytearray(), 16),
+                       "alert": lambda: M.Alert().create(90, 1)}[t[1]]()
+            else:
+                i, n = int(t[2]), int(t[3])
+                size = (len(nst) + n - 1) // n
+                msg = M.Message(ContentType.handshake, bytearray(nst[i * size:(i + 1) * size]))
+            cn.L.op("server", cn.s._sendMsg(msg), pump_other=False)
+        tickets = 0
+        verdict = None
+        data = b""
+        for _ in range(8):
+            r = cn.L.read("client", min=0)
+            if r[0] == "error":
+                verdict = "err %s" % lab.exc_class(r[1]).split(":")[-1] if lab.exc_class(r[1]).startswith("local_alert") \
+                    else "exc " + lab.exc_class(r[1])
+                break
+            if r[0] == "stall":
+                break
+            data += r[1]
+        if verdict is None:
+            verdict = "ok tickets=%d data=%s" % (len(cn.c.tickets), data.hex() or "-")
+        case = {"stage": "fragments", "label": label, "frags": frags, "impl": verdict}
+        ctx.case(key=("frag", label), sample=case if label == "nst-data-between-pieces" else None)
+        ctx.count("fragment-case:" + label)
+        # direct oracle (RFC 8446 5.1: handshake messages must not be interleaved with other record types; a message
+        # cut at any point is the same message)
+        pending, want_fatal = False, False
+        for f in frags:
+            t = f.split(":")
+            if t[0] == "p":
+                pending = int(t[2]) + 1 != int(t[3])
+            elif t[1] != "nst" and pending:
+                want_fatal = True
+                break
+        if want_fatal != verdict.startswith("err 10"):
+            ctx.violation("c16:fragment-" + label, "%s: receiver verdict %s" % (label, verdict), case)
+        if not want_fatal:
+            n_t = sum(1 for f in frags if f == "w:nst") + (1 if any(f.startswith("p:") for f in frags) else 0)
+            n_d = sum(1 for f in frags if f == "w:app")
+            if verdict != "ok tickets=%d data=%s" % (n_t, (b"x" * n_d).hex() or "-"):
+                ctx.violation("c16:fragment-" + label, "%s: receiver verdict %s" % (label, verdict), case)
+        if lc is not None:
+            m = lc.ask("reasm 1 " + " ".join(frags))
+            ctx.compared()
+            mv = "err" if m.startswith("err") else "ok"
+            iv = "err" if verdict.startswith("err") else ("ok" if verdict.startswith("ok") else verdict)
+            if mv != iv or (mv == "err" and m.split()[1] != verdict.split()[1]) or \
+                    (mv == "ok" and int(m.split()[1]) != len(cn.c.tickets) + len(data)):
+                ctx.disagree("reasm", case, m, verdict)
+
+
 # ------------------------------------------------------------------------------------------------
 def run(ctx):
     ctx.rule = ("seeded histories over {write, read(max,min), key-update(req/no-req), request-client-auth, heartbeat(payload,padding), "
@@ -406,6 +493,7 @@ def run(ctx):
     t_start = ctx.elapsed()
     budget = ctx.pick(80.0, 900.0)
     fatal_cases(ctx, lc)
+    fragment_cases(ctx, lc)
     n_hist = 0
     while ctx.elapsed() - t_start < budget and n_hist < ctx.pick(1500, 20000):
         n_hist += 1
